@@ -1320,6 +1320,16 @@ func buildFromStringProto(src protoreflect.FieldDescriptor, ext protoFieldExtens
 
 	looksLikeKey := false
 
+	// A field written by the j5s compiler names its J5 type in (j5.ext.v1.field).
+	// A string stays a string and keeps its pattern, and the pattern of a custom
+	// key is that key's own: formats and keys are inferred from well-known
+	// patterns only where the annotation does not say already.
+	keyFieldOpt := ext.j5.GetKey()
+	_, hasOwnPattern := keyFieldOpt.GetType().(*ext_j5pb.KeyField_Pattern)
+	if ext.j5.GetString_() != nil {
+		hasOwnPattern = true
+	}
+
 	if ext.validate != nil && ext.validate.Type != nil {
 		stringItem.Rules = &schema_j5pb.StringField_Rules{}
 		constraint := ext.validate.GetString()
@@ -1334,7 +1344,7 @@ func buildFromStringProto(src protoreflect.FieldDescriptor, ext protoFieldExtens
 		if constraint.Pattern != nil {
 			pattern := *constraint.Pattern
 			wellKnownStringPattern, ok := wellKnownStringPatterns[pattern]
-			if ok {
+			if ok && !hasOwnPattern {
 				stringItem.Format = Ptr(wellKnownStringPattern)
 			} else {
 				stringItem.Rules.Pattern = Ptr(pattern)
@@ -1443,7 +1453,6 @@ func buildFromStringProto(src protoreflect.FieldDescriptor, ext protoFieldExtens
 		looksLikeKey = true
 	}
 
-	keyFieldOpt := ext.j5.GetKey()
 	if keyFieldOpt != nil {
 		looksLikeKey = true
 	}
